@@ -1,7 +1,11 @@
 package main
 
 import (
+	"bufio"
+	"encoding/json"
 	"fmt"
+	"os"
+	"os/exec"
 	"strings"
 	"sync"
 
@@ -211,4 +215,86 @@ func runConc(c *caseT) string {
 		fmt.Fprintf(&b, "\tCONC=ok:%d", threads*rounds*len(fns)*len(docs))
 	}
 	return b.String()
+}
+
+// runCold starts a brand-new process whose very first library calls are made concurrently by several goroutines
+// (no warm-up): lazy initialisation of package-level state must be race free too.  The child is this same binary
+// (built with -race when the scenario runs under the race detector); a race report makes it exit non-zero.
+func runCold(c *caseT) string {
+	self, _ := os.Executable()
+	cmd := exec.Command(self, "coldchild")
+	raw, _ := json.Marshal(c)
+	cmd.Stdin = strings.NewReader(string(raw) + "\n")
+	out, err := cmd.CombinedOutput()
+	text := strings.TrimSpace(string(out))
+	if err != nil {
+		if strings.Contains(text, "DATA RACE") {
+			return c.ID + "\tCOLD=race"
+		}
+		return c.ID + "\tCOLD=died:" + hx(text[max(0, len(text)-300):])
+	}
+	lines := strings.Split(text, "\n")
+	return c.ID + "\t" + lines[len(lines)-1]
+}
+
+func coldChild() {
+	in := bufio.NewReaderSize(os.Stdin, 1<<20)
+	line, _ := in.ReadBytes('\n')
+	var c caseT
+	if err := json.Unmarshal(line, &c); err != nil {
+		fmt.Println("COLD=badcase")
+		os.Exit(3)
+	}
+	threads := c.Threads
+	if threads < 2 {
+		threads = 4
+	}
+	var parses []opT
+	var docs []docT
+	for _, op := range c.Ops {
+		if op.Op == "parse" {
+			parses = append(parses, op)
+		} else if op.Op == "doc" {
+			docs = append(docs, op.Doc)
+		}
+	}
+	type outT struct{ obs []string }
+	outs := make([]outT, threads)
+	start := make(chan struct{})
+	var wg sync.WaitGroup
+	for t := 0; t < threads; t++ {
+		wg.Add(1)
+		go func(t int) {
+			defer wg.Done()
+			<-start
+			for k := range parses {
+				op := parses[(k+t)%len(parses)]
+				cfg := makeConfig(op.Filters, op.Aggs, op.Acc, nil)
+				f, obs, _ := parseObs(unhex(op.Path), &cfg)
+				o := fmt.Sprintf("%d:%s", (k+t)%len(parses), obs)
+				if f != nil {
+					for j := range docs {
+						_, e := evalObs(f, buildDoc(docs[j]))
+						o += "|" + e
+					}
+				}
+				outs[t].obs = append(outs[t].obs, o)
+			}
+		}(t)
+	}
+	close(start)
+	wg.Wait()
+	// every goroutine must have observed the same outcome for the same (path, document)
+	seen := map[string]string{}
+	for t := range outs {
+		for _, o := range outs[t].obs {
+			key := o[:strings.Index(o, ":")]
+			if prev, ok := seen[key]; ok && prev != o {
+				fmt.Println("COLD=diff:" + hx(prev+" vs "+o))
+				return
+			}
+			seen[key] = o
+		}
+	}
+	fmt.Printf("COLD=ok:%d\n", threads*len(parses))
 }
